@@ -1,11 +1,333 @@
-// In-crate verification harness (stub; see /verif/docs/SLICE_GUIDE.md).
+// In-crate verification harness for the sequencer's vote-extension validation (C15).
+// Hooked as `app::vote_extension::verif` (child of the module that owns the private
+// `validate_vote_extensions` / `validate_extended_commit_against_last_commit`), feature
+// `verif-ve`.  Emits `quorum proposal <height> <rm> <keys> <last> <ext> => ok|err:<kind>` lines
+// which lean/Driver/QuorumArea.lean replays through Astria.Quorum.validateProposal.
+//   keys = `<addr>:<key>,…`  validators stored in state (address i ↔ key i)
+//   last = `<addr>:<power>:<flag c|n|a>,…`                       (the last commit)
+//   ext  = `<addr>:<power>:<flag>:<ext 0|1>:<sigtag>,…`          (the proposed extended commit)
+//   sigtag: `-` none, `0` 64 garbage bytes, `w` right key over another height, `<k>` key k over
+//           the right message
 #![allow(clippy::pedantic, clippy::all, dead_code, unused_imports)]
 
 #[path = "/verif/harness/common.rs"]
 mod common;
 
+use astria_core::{
+    crypto::SigningKey,
+    protocol::{
+        price_feed::v1::ExtendedCommitInfoWithCurrencyPairMapping,
+        transaction::v1::action::ValidatorUpdate,
+    },
+};
+use cnidarium::{
+    StateDelta,
+    TempStorage,
+};
+use common::{
+    no_panic,
+    Rng,
+    Trace,
+};
+use indexmap::IndexMap;
+use prost::Message as _;
+use tendermint::{
+    abci::types::{
+        BlockSignatureInfo::Flag,
+        CommitInfo,
+        ExtendedCommitInfo,
+        ExtendedVoteInfo,
+        Validator,
+        VoteInfo,
+    },
+    block::BlockIdFlag,
+};
+use tendermint_proto::v0_38::types::CanonicalVoteExtension;
+
+use super::ProposalHandler;
+use crate::{
+    address::StateWriteExt as _,
+    app::StateWriteExt as _,
+    authority::StateWriteExt as _,
+    oracles::price_feed::{
+        market_map::state_ext::StateWriteExt as _,
+        oracle::state_ext::StateWriteExt as _,
+    },
+};
+
+const CHAIN_ID: &str = "verif-ve";
+
+fn key(id: u64) -> SigningKey {
+    let mut seed = [0u8; 32];
+    seed[..8].copy_from_slice(&id.to_le_bytes());
+    seed[31] = 0x3c;
+    SigningKey::from(seed)
+}
+
+fn addr(id: u64) -> [u8; 20] {
+    *key(id).verification_key().address_bytes()
+}
+
+fn flag(s: &str) -> BlockIdFlag {
+    match s {
+        "c" => BlockIdFlag::Commit,
+        "n" => BlockIdFlag::Nil,
+        _ => BlockIdFlag::Absent,
+    }
+}
+
+fn message(height: u64) -> Vec<u8> {
+    CanonicalVoteExtension {
+        extension: vec![],
+        height: i64::try_from(height - 1).unwrap(),
+        round: 1,
+        chain_id: CHAIN_ID.to_string(),
+    }
+    .encode_length_delimited_to_vec()
+}
+
+fn err_kind(msg: &str) -> &'static str {
+    let table: [(&str, &str); 17] = [
+        ("voted twice", "voted-twice"),
+        ("calculating total voting power overflowed", "total-overflow"),
+        ("signature is missing", "missing-signature"),
+        ("non-commit vote extension present", "non-commit-extension"),
+        ("non-commit extension signature present", "non-commit-signature"),
+        ("submitted voting power overflowed", "submitted-overflow"),
+        ("not found in validators", "unknown-validator"),
+        ("failed to verify signature", "bad-signature"),
+        ("failed to create signature", "bad-signature"),
+        ("total voting power is zero", "zero-power"),
+        ("failed to multiply total voting power", "mul-overflow"),
+        ("less than required voting power", "insufficient"),
+        ("round does not match", "round-mismatch"),
+        ("votes length does not match", "length-mismatch"),
+        ("vote address does not match", "address-mismatch"),
+        ("vote power does not match", "power-mismatch"),
+        ("sig info does not match", "flag-mismatch"),
+    ];
+    for (needle, kind) in table {
+        if msg.contains(needle) {
+            return kind;
+        }
+    }
+    "other"
+}
+
+async fn proposal(storage: &TempStorage, t: &[&str]) -> String {
+    let height: u64 = t[0].parse().unwrap();
+    let rounds_match = t[1] == "1";
+    // nothing is ever committed: every op sees the empty snapshot through a fresh delta
+    let mut state = StateDelta::new(storage.latest_snapshot());
+    state
+        .put_chain_id_and_revision_number(CHAIN_ID.try_into().unwrap())
+        .unwrap();
+    state.put_base_prefix("astria".to_string()).unwrap();
+    state.put_num_currency_pairs(0).unwrap();
+    state
+        .put_market_map(astria_core::oracles::price_feed::market_map::v2::MarketMap {
+            markets: IndexMap::new(),
+        })
+        .unwrap();
+    if t[2] != "." {
+        for e in t[2].split(',') {
+            let (a, k) = e.split_once(':').unwrap();
+            let a: u64 = a.parse().unwrap();
+            let k: u64 = k.parse().unwrap();
+            assert_eq!(a, k, "address i is derived from key i");
+            state
+                .put_validator(&ValidatorUpdate {
+                    power: 1,
+                    verification_key: key(k).verification_key(),
+                    name: "v".parse().unwrap(),
+                })
+                .unwrap();
+        }
+    }
+    let last_votes: Vec<VoteInfo> = if t[3] == "." {
+        vec![]
+    } else {
+        t[3].split(',')
+            .map(|e| {
+                let f: Vec<&str> = e.split(':').collect();
+                VoteInfo {
+                    validator: Validator {
+                        address: addr(f[0].parse().unwrap()),
+                        power: f[1].parse::<u64>().unwrap().try_into().unwrap(),
+                    },
+                    sig_info: Flag(flag(f[2])),
+                }
+            })
+            .collect()
+    };
+    let good = message(height.max(2));
+    let wrong = message(height.max(2) + 1);
+    let ext_votes: Vec<ExtendedVoteInfo> = if t[4] == "." {
+        vec![]
+    } else {
+        t[4].split(',')
+            .map(|e| {
+                let f: Vec<&str> = e.split(':').collect();
+                let a: u64 = f[0].parse().unwrap();
+                let extension_signature = match f[4] {
+                    "-" => None,
+                    "0" => Some(vec![0x17u8; 64].try_into().unwrap()),
+                    "w" => Some(key(a).sign(&wrong).to_bytes().to_vec().try_into().unwrap()),
+                    k => Some(
+                        key(k.parse().unwrap())
+                            .sign(&good)
+                            .to_bytes()
+                            .to_vec()
+                            .try_into()
+                            .unwrap(),
+                    ),
+                };
+                // a commit vote carries the canonical (empty price map) extension; `ext=1` on a
+                // non-commit vote attaches stray bytes
+                let vote_extension: Vec<u8> = if f[3] == "1" && f[2] != "c" { vec![1, 2, 3] } else { vec![] };
+                ExtendedVoteInfo {
+                    validator: Validator {
+                        address: addr(a),
+                        power: f[1].parse::<u64>().unwrap().try_into().unwrap(),
+                    },
+                    sig_info: Flag(flag(f[2])),
+                    extension_signature,
+                    vote_extension: vote_extension.into(),
+                }
+            })
+            .collect()
+    };
+    let last_commit = CommitInfo {
+        round: 1u16.into(),
+        votes: last_votes,
+    };
+    let ext = ExtendedCommitInfo {
+        round: (if rounds_match { 1u16 } else { 2u16 }).into(),
+        votes: ext_votes,
+    };
+    let with_mapping = ExtendedCommitInfoWithCurrencyPairMapping::new(ext, IndexMap::new());
+    match ProposalHandler::validate_proposal(&state, height, &last_commit, &with_mapping).await {
+        Ok(()) => "ok".to_string(),
+        Err(e) => format!("err:{}", err_kind(&format!("{e:#}"))),
+    }
+}
+
+const POWERS: [u64; 8] = [1, 2, 3, 5, 10, 1 << 31, 1 << 62, (1 << 63) - 1];
+
+fn gen_op(rng: &mut Rng) -> String {
+    let n = rng.range(1, 6);
+    let huge = rng.chance(10);
+    let vals: Vec<(u64, u64)> = (1..=n)
+        .map(|i| (i, if huge { *rng.pick(&POWERS[5..]) } else { *rng.pick(&POWERS[..5]) }))
+        .collect();
+    let mut keys: Vec<String> = vals.iter().map(|(i, _)| format!("{i}:{i}")).collect();
+    let mut last: Vec<(u64, u64, &str)> = vals
+        .iter()
+        .map(|&(i, p)| (i, p, if rng.chance(78) { "c" } else if rng.chance(60) { "n" } else { "a" }))
+        .collect();
+    // ext mirrors last; honest proposers sign commit votes
+    let mut ext: Vec<(u64, u64, String, u8, String)> = last
+        .iter()
+        .map(|&(i, p, f)| (i, p, f.to_string(), 0u8, if f == "c" { i.to_string() } else { "-".to_string() }))
+        .collect();
+    let mut rm = 1;
+    let mut height = rng.range(2, 50);
+    if rng.chance(45) {
+        // one adversarial edit
+        let j = rng.below(ext.len() as u64) as usize;
+        match rng.below(17) {
+            0 => ext[j].4 = "-".into(),
+            1 => ext[j].4 = "0".into(),
+            2 => ext[j].4 = "w".into(),
+            3 => ext[j].4 = ((ext[j].0 % n) + 1).to_string(),
+            4 => {
+                let d = ext[j].clone();
+                ext.push(d);
+                let l = last[j];
+                last.push(l);
+            }
+            5 => ext[j].2 = if ext[j].2 == "c" { "n".into() } else { "c".into() },
+            6 => ext[j].1 = if ext[j].1 >= (1 << 62) { ext[j].1 - 1 } else { ext[j].1 + 1 },
+            7 => {
+                if ext.len() > 1 {
+                    ext.swap(0, 1);
+                }
+            }
+            8 => {
+                ext.pop();
+            }
+            9 => ext[j].3 = 1,
+            10 => {
+                if ext[j].2 != "c" {
+                    ext[j].4 = ext[j].0.to_string();
+                }
+            }
+            11 => {
+                // pruned vote: absent, no extension, no signature (allowed whatever the last commit says)
+                ext[j].2 = "a".into();
+                ext[j].4 = "-".into();
+            }
+            12 => rm = 0,
+            13 => ext.clear(),
+            14 => height = 1,
+            15 => {
+                keys.remove(j.min(keys.len() - 1));
+            }
+            _ => {
+                // several validators stop signing: drives the 2/3 boundary
+                for e in ext.iter_mut().take(j + 1) {
+                    e.2 = "a".into();
+                    e.4 = "-".into();
+                }
+            }
+        }
+    }
+    let last_s: Vec<String> = last.iter().map(|(i, p, f)| format!("{i}:{p}:{f}")).collect();
+    let ext_s: Vec<String> = ext.iter().map(|(i, p, f, x, s)| format!("{i}:{p}:{f}:{x}:{s}")).collect();
+    let dot = |v: Vec<String>| if v.is_empty() { ".".to_string() } else { v.join(",") };
+    format!("proposal {height} {rm} {} {} {}", dot(keys), dot(last_s), dot(ext_s))
+}
+
+fn gen_ops(rng: &mut Rng, thorough: bool) -> Vec<String> {
+    let mut ops = Vec::new();
+    // exact 2/3 boundary: k equal validators, j of them sign, the others are absent
+    for k in 1..=7u64 {
+        for j in 0..=k {
+            let keys: Vec<String> = (1..=k).map(|i| format!("{i}:{i}")).collect();
+            let last: Vec<String> = (1..=k).map(|i| format!("{i}:1:{}", if i <= j { "c" } else { "a" })).collect();
+            let ext: Vec<String> = (1..=k)
+                .map(|i| if i <= j { format!("{i}:1:c:0:{i}") } else { format!("{i}:1:a:0:-") })
+                .collect();
+            ops.push(format!("proposal 5 1 {} {} {}", keys.join(","), last.join(","), ext.join(",")));
+        }
+    }
+    let n = if thorough { 20_000 } else { 1500 };
+    for _ in 0..n {
+        ops.push(gen_op(rng));
+    }
+    ops
+}
+
 #[test]
 fn driver() {
-    let trace = common::Trace::from_env();
+    common::silence_panics();
+    let rt = tokio::runtime::Builder::new_current_thread().enable_all().build().unwrap();
+    let mut rng = Rng::from_env();
+    let mut trace = Trace::from_env();
+    let storage = rt.block_on(TempStorage::new()).unwrap();
+    let ops = match common::replay_lines() {
+        Some(lines) => lines,
+        None => {
+            let mut v = common::corpus_lines();
+            v.extend(gen_ops(&mut rng, common::is_thorough()));
+            v
+        }
+    };
+    for op in ops {
+        let op = op.strip_prefix("quorum ").unwrap_or(&op).to_string();
+        let t: Vec<&str> = op.split(' ').collect();
+        let res = rt.block_on(proposal(&storage, &t[1..]));
+        trace.line(&format!("quorum {op} => {res}"));
+    }
     trace.finish();
 }
